@@ -61,9 +61,7 @@ If `things` is empty then just return `init`."
   "Return the result of applying `f` to `init` and the last element of `things`,
 then applying `f` to that result and the second to last element of `things` and so on.
 If `things` is empty then just return `init`."
-  (if things
-      (f (car things) (foldr f init (cdr things)))
-      init))
+  (foldl (lambda (acc x) (f x acc)) init (reverse things)))
 
 (defun reverse (things)
   "Reverse the order of elements in `things`."
@@ -125,9 +123,7 @@ to the length of the shortest input list."
 (defun init (things)
   "Return all elements of `things` except the last one."
   (if things
-      (if (cdr things)
-          (cons (car things) (init (cdr things)))
-          nil)
+      (reverse (cdr (reverse things)))
       nil))
 
 (defmacro block (& body)
